@@ -1,10 +1,19 @@
 """C12 - crashed runs leave a loadable prefix backup; restart without rework.
 
-Backup.tla is model-checked (every crash point of every bounded run, both backup modes, repeated crashes);
+Backup.tla is model-checked in two layers.  Layer 1 (unconstrained driver): every crash point of every
+bounded run, both backup modes, repeated crashes, restarts under both counter policies.  Layer 2
+(deterministic runs replayed exactly): every plan of requests x every verdict of the tolerance testers x
+budgets, the uninterrupted run followed by the same scenario crashed at every discipline execution and
+restarted under either counter policy; SameHistory is a theorem for every (termination cause of the
+uninterrupted run: budget | GEMSEO ftol/xtol | the algorithm's own convergence) x (counter policy of the
+restart: reset | kept) except budget x reset, where the uninterrupted history is a prefix (TLC refutes the
+unconditional statement, and refutes SameHistory for testers guarded by the evaluation counter).
+
 BackupTrace.tla validates the event traces of real scenarios and PREDICTS the file content at every
 discipline execution; child processes are killed (os._exit) inside exactly those executions and the
-real file is compared with the prediction; restarted children are recorded and validated again
-(NoRework, LoadedKept, exports) and compared with the uninterrupted run.
+real file is compared with the prediction; restarted children (one per counter policy) are recorded and
+validated again (NoRework, LoadedKept, exports) and TLC judges their final history against the
+uninterrupted run with the rule proved on the model (SameHistory / RefIsPrefix).
 """
 from __future__ import annotations
 
@@ -13,30 +22,55 @@ import os
 import shutil
 import subprocess
 import sys
+import threading
 from concurrent.futures import ThreadPoolExecutor
 
 from ..core import Check, MachineryError, main
 from ..tlaval import seq
 
 OUT_IDS = {"f": 1, "g": 2, "@f": 3, "@g": 4, "o": 5, "@o": 6}
-INVS = ["FilePrefix", "FileExactEachCall", "FileAtLastIteration", "LoadedKept", "MemoryAhead"]
+INVS = ["FilePrefix", "FileExactEachCall", "FileAtLastIteration", "LoadedKept", "MemoryAhead", "CounterCounts"]
+RUN_INVS = INVS + ["NoRework", "SameHistory", "RefIsPrefix"]
+# the named actions of the run layer: every (cause of the uninterrupted run) x (counter policy) must be reached,
+# with crashes at late and at early points
+RUN_ACTIONS = ("RServe", "RBudget", "RExecStart", "RExecEnd", "RStore", "StartOver", "RRestart", "FinishRef",
+               "FinishUncrashed", "FinishBudgetReset", "FinishBudgetKept", "FinishTolReset", "FinishTolKept",
+               "FinishAlgoReset", "FinishAlgoKept", "CrashLate", "CrashEarly")
+N_LAST = 3  # stop_crit_n_x of the real drivers (default), used to tell the late crash points
+WORKERS = int(os.environ.get("VERIF_WORKERS", "8") or 8)
 
 
-def model_cfg(each_call, each_iter, max_stores, max_crashes, points="{1,2,3}", outs="{1,2}"):
-    b = lambda x: "TRUE" if x else "FALSE"  # noqa: E731
-    s = (f"CONSTANTS Points = {points}\n Outs = {outs}\n EachCall = {b(each_call)}\n EachIter = {b(each_iter)}\n"
-         f" MaxStores = {max_stores}\n MaxCrashes = {max_crashes}\nSPECIFICATION Spec\n")
+def _b(x):
+    return "TRUE" if x else "FALSE"
+
+
+def _consts(each_call, each_iter, max_stores, max_crashes, points, outs, policies='{"reset", "kept"}', n_last=2,
+            plan_len=0, max_iters="{0}", guard="database"):
+    return (f"CONSTANTS Points = {points}\n Outs = {outs}\n EachCall = {_b(each_call)}\n EachIter = {_b(each_iter)}\n"
+            f" MaxStores = {max_stores}\n MaxCrashes = {max_crashes}\n Policies = {policies}\n NLast = {n_last}\n"
+            f" PlanLen = {plan_len}\n MaxIters = {max_iters}\n TesterGuard = \"{guard}\"\n")
+
+
+def model_cfg(each_call, each_iter, max_stores, max_crashes, points="{1,2,3}", outs="{1,2}", policies='{"reset", "kept"}'):
+    s = _consts(each_call, each_iter, max_stores, max_crashes, points, outs, policies=policies) + "SPECIFICATION Spec\n"
     for i in INVS:
         s += f"INVARIANT {i}\n"
     return s
 
 
+def run_cfg(each_call, each_iter, plan_len, max_crashes, n_last=2, max_iters="{0, 2, 3}", guard="database",
+            policies='{"reset", "kept"}', invs=RUN_INVS, points="{1,2,3}"):
+    s = _consts(each_call, each_iter, 100000, max_crashes, points, "{1,2}", policies=policies, n_last=n_last,
+                plan_len=plan_len, max_iters=max_iters, guard=guard) + "SPECIFICATION RunSpec\n"
+    for i in invs:
+        s += f"INVARIANT {i}\n"
+    return s
+
+
 def trace_cfg(each_call, each_iter, n_points):
-    b = lambda x: "TRUE" if x else "FALSE"  # noqa: E731
     pts = "{" + ", ".join(str(i) for i in range(1, n_points + 1)) + "}"
-    s = (f"CONSTANTS Points = {pts}\n Outs = {{1, 2, 3, 4, 5, 6}}\n EachCall = {b(each_call)}\n EachIter = {b(each_iter)}\n"
-         f" MaxStores = 100000\n MaxCrashes = 0\nINIT TInit\nNEXT TNext\nCONSTRAINT Reach\nPOSTCONDITION Accepted\n"
-         "CHECK_DEADLOCK FALSE\n")
+    s = (_consts(each_call, each_iter, 100000, 0, pts, "{1, 2, 3, 4, 5, 6}", n_last=N_LAST)
+         + "INIT TInit\nNEXT TNext\nCONSTRAINT Reach\nPOSTCONDITION Accepted\nCHECK_DEADLOCK FALSE\n")
     for i in INVS:
         s += f"INVARIANT {i}\n"
     return s
@@ -46,7 +80,6 @@ class Runner:
     def __init__(self, ck: Check):
         self.ck = ck
         self.n = 0
-        import threading
         self.lock = threading.Lock()
         self.points: dict[tuple, int] = {}
 
@@ -57,7 +90,7 @@ class Runner:
         return self.points[key]
 
     def child(self, cfg, init_file=None):
-        """Run one child; returns (returncode, events, result|None, backup path)."""
+        """Run one child; returns (returncode, events, result|None, backup path, stderr tail)."""
         with self.lock:
             self.n += 1
             d = self.ck.work / f"run{self.n}"
@@ -69,7 +102,7 @@ class Runner:
         (d / "cfg.json").write_text(json.dumps(c))
         env = dict(os.environ, PYTHONHASHSEED="0")
         p = subprocess.run([sys.executable, "-m", "harness.checks.c12_child", str(d / "cfg.json")],
-                           cwd=str(self.ck.work.parent.parent), env=env, capture_output=True, text=True, timeout=300)
+                           cwd=str(self.ck.work.parent.parent), env=env, capture_output=True, text=True, timeout=600)
         events = []
         if (d / "trace.ndjson").exists():
             for line in open(d / "trace.ndjson"):
@@ -82,12 +115,11 @@ class Runner:
     def dbj(self, entries):
         return [{"pt": self.pid(e["pt"]), "outs": [OUT_IDS[o] for o in e["outs"]]} for e in entries]
 
-    def to_trace(self, tid, events, req):
+    def to_trace(self, tid, events, req, policy="fresh", maxiter=0, exact=1, ref=(), refcause="none"):
         """Child events -> BackupTrace events (points and outputs interned)."""
         k = next(i for i, e in enumerate(events) if e["ev"] == "loaded")
         init = self.dbj(events[k]["db"])
         out = []
-        prev = None
         for e in events[k + 1:]:
             ev = e["ev"]
             if ev in ("exec_start",):
@@ -101,9 +133,9 @@ class Runner:
             elif ev == "export":
                 out.append({"ev": "export", "file": self.dbj(e["file"])})
             elif ev == "done":
-                out.append({"ev": "done", "db": self.dbj(e["db"])})
-            prev = out[-1]["ev"] if out else None
-        return {"id": tid, "init": init, "req": req, "events": out}
+                out.append({"ev": "done", "db": self.dbj(e["db"]), "counter": int(e["counter"]), "cause": e["cause"]})
+        return {"id": tid, "init": init, "req": req, "events": out, "policy": policy, "maxiter": int(maxiter),
+                "exact": int(exact), "ref": list(ref), "refcause": refcause}
 
 
 def load_file(path):
@@ -125,158 +157,283 @@ def validate(ck, traces, each_call, each_iter, n_points):
                env={"TRACE_FILE": str(f)}, coverage=False, expect_ok=False)
     ck.states += r.distinct
     ck.transitions += r.generated
-    verdict, crashfile = {}, {}
+    verdict, crashfile, done = {}, {}, {}
     for v in r.printed():
         if isinstance(v, tuple) and v and v[0] == "TRACE":
             verdict[v[1]] = (v[2], v[3])
         elif isinstance(v, tuple) and v and v[0] == "CRASHFILE":
             crashfile[(v[1], v[2])] = [(e["pt"], frozenset(e["outs"])) for e in seq(v[3])]
-    return r, verdict, crashfile
+        elif isinstance(v, tuple) and v and v[0] == "DONE":
+            done[v[1]] = dict(v[2])
+    return r, verdict, crashfile, done
+
+
+def final_state(r):
+    """The string-valued variables of the last state of TLC's counterexample."""
+    import re
+
+    ce = r.counterexample()
+    if not ce:
+        return {}
+    st = ce[-1][1]
+    if isinstance(st, dict):
+        return {k: v for k, v in st.items() if isinstance(v, str)}
+    return dict(re.findall(r'/\\ (\w+) = "(\w*)"', st))
+
+
+def check_design(ck: Check):
+    """Backup.tla satisfies its own properties (TLC); the expected refutations (non-vacuity)."""
+    # ---- layer 1: every crash point of every bounded run, both modes, up to 2 crashes, both counter policies
+    # (the file clauses do not depend on the counter policy: both policies are explored together in one backup
+    # mode, the deepest bound is explored with one policy per mode)
+    both, kept, reset = '{"reset", "kept"}', '{"kept"}', '{"reset"}'
+    if ck.thorough:
+        layer1 = [((True, False), 5, kept), ((False, True), 5, reset), ((True, True), 4, both)]
+    else:
+        layer1 = [((True, False), 3, both), ((False, True), 3, reset), ((True, True), 3, kept)]
+    for (ec, ei), ms, pols in layer1:
+        ck.tlc("Backup", model_cfg(ec, ei, ms, 2, policies=pols), workers=WORKERS, timeout=1500, deadlock=False,
+               require_actions=("FreeExecStart", "FreeExecEnd", "FreeStore", "FreeCrash", "FreeRestart"))
+    # ---- layer 2: deterministic runs: (cause of the uninterrupted run) x (counter policy) x every crash point
+    # (backup mode, PlanLen, MaxCrashes, NLast, budgets, points)
+    if ck.thorough:
+        runs = [((True, False), 4, 2, 2, "{0, 2, 3}", "{1,2,3}"), ((False, True), 4, 2, 2, "{0, 2, 3}", "{1,2,3}"),
+                ((True, True), 4, 1, 2, "{0, 2, 3}", "{1,2,3}"), ((True, False), 4, 1, 3, "{0, 3, 4}", "{1,2,3,4}")]
+    else:
+        runs = [((True, False), 4, 1, 2, "{0, 2}", "{1,2,3}"), ((False, True), 3, 1, 2, "{0, 2}", "{1,2,3}"),
+                ((True, True), 3, 1, 2, "{0, 2}", "{1,2,3}")]
+    for (ec, ei), plan_len, crashes, n_last, budgets, pts in runs:
+        ck.tlc("Backup", run_cfg(ec, ei, plan_len, crashes, n_last=n_last, max_iters=budgets, points=pts), workers=WORKERS,
+               timeout=1500, deadlock=False, require_actions=RUN_ACTIONS)
+    # ---- refuted, as it must be: the unconditional SameHistory (a restart that resets the counter gives a
+    # budget-terminated run a fresh budget) ...
+    r = ck.tlc("Backup", run_cfg(True, False, 3, 1, policies='{"reset"}',
+                                 invs=["SameHistoryAlways"]), workers=WORKERS, timeout=900, deadlock=False,
+               expect_ok=False, coverage=False, count=False)
+    last = final_state(r)
+    if r.violated != "SameHistoryAlways" or last.get("refcause") != "budget" or last.get("policy") != "reset":
+        raise MachineryError("Backup.tla: SameHistoryAlways should be refuted by a budget-terminated run restarted "
+                             f"with a reset counter; got {r.violated} {last}")
+    # ... and SameHistory itself when the testers are guarded by the evaluation counter instead of looking at the
+    # database only: a tolerance-stopped run restarted from a late crash point with a reset counter goes on
+    r = ck.tlc("Backup", run_cfg(True, False, 3, 1, guard="counter", invs=["SameHistory"]), workers=WORKERS,
+               timeout=900, deadlock=False, expect_ok=False, coverage=False, count=False)
+    last = final_state(r)
+    if r.violated != "SameHistory" or last.get("refcause") != "tol" or last.get("policy") != "reset":
+        raise MachineryError("Backup.tla: SameHistory should be refuted for counter-guarded testers by a "
+                             f"tolerance-stopped run restarted with a reset counter; got {r.violated} {last}")
+    # ... or wait for N_LAST entries stored by the current process: refuted whatever the counter policy
+    r = ck.tlc("Backup", run_cfg(True, False, 3, 1, guard="new", policies='{"kept"}', invs=["SameHistory"]),
+               workers=WORKERS, timeout=900, deadlock=False, expect_ok=False, coverage=False, count=False)
+    last = final_state(r)
+    if r.violated != "SameHistory" or last.get("refcause") != "tol" or last.get("policy") != "kept":
+        raise MachineryError("Backup.tla: SameHistory should be refuted for testers that wait for new entries by a "
+                             f"tolerance-stopped run restarted with the counter kept; got {r.violated} {last}")
+    ck.extra["refuted_as_expected"] = ["SameHistoryAlways (budget x reset)", "SameHistory under TesterGuard=counter (tol x reset)",
+                                       "SameHistory under TesterGuard=new (tol x kept)"]
+
+
+def scenario_configs(ck: Check):
+    S5 = [[1.0, 1.0], [0.5, -1.0], [2.0, 0.25], [1.0, 1.0], [-1.5, 3.0]]
+    both = ["kept", "reset"]
+    configs = [
+        # ended by the budget (max_iter binding)
+        {"name": "mdo-call", "kind": "mdo", "mode": "call", "max_iter": 5, "policies": both, "expect_cause": "budget",
+         "n_early": 1},
+        {"name": "mdo-iter", "kind": "mdo", "mode": "iter", "max_iter": 8, "policies": both if ck.thorough else ["kept"],
+         "n_early": 2},
+        {"name": "doe-call", "kind": "doe", "mode": "call", "samples": S5, "n_early": 2},
+        # at each iteration only: the newest entry of the file holds only the first output
+        {"name": "doe-iter", "kind": "doe", "mode": "iter", "samples": S5, "n_early": 2},
+        # objective and constraint computed by separate discipline executions (IDF, no coupling);
+        # the constraint raises ValueError at one sample: the DOE skips it, its partial entry stays
+        {"name": "doe-call-idf-failing-sample", "kind": "doe", "mode": "call", "samples": S5,
+         "system": "uncoupled", "formulation": "IDF", "fail_g": [[0.5, -1.0]], "n_early": 2},
+        # an observable computed by its own discipline: it is evaluated by a new-iteration listener, i.e.
+        # AFTER the store listeners exported the value just stored (IDF: one discipline per function)
+        {"name": "doe-call-idf-observable", "kind": "doe", "mode": "call", "samples": S5[:3],
+         "system": "uncoupled_obs", "formulation": "IDF", "n_early": 2},
+        # ended by the algorithm's own convergence test (SLSQP's, on a quadratic programme; max_iter not binding)
+        {"name": "mdo-call-converged", "kind": "mdo", "mode": "call", "max_iter": 100, "policies": both,
+         "expect_cause": "algo", "n_early": 0},
+        # ended by GEMSEO's ftol/xtol testers (default tolerances, non-quadratic problem: well before SLSQP's own
+        # convergence; max_iter not binding): the testers look at the last entries of the database, loaded or
+        # not, so a restart from ANY crash point - the last ones included - stops where the uninterrupted run did
+        {"name": "mdo-call-tolerance-stopped", "kind": "mdo", "mode": "call", "max_iter": 100, "system": "curved",
+         "policies": both, "expect_cause": "tol", "n_early": 1},
+    ]
+    if ck.thorough:
+        configs += [
+            {"name": "mdo-both", "kind": "mdo", "mode": "both", "max_iter": 8, "policies": both},
+            {"name": "doe-iter-idf-failing-sample", "kind": "doe", "mode": "iter", "samples": S5,
+             "system": "uncoupled", "formulation": "IDF", "fail_g": [[2.0, 0.25]]},
+            {"name": "mdo-call-normalized", "kind": "mdo", "mode": "call", "max_iter": 8, "normalize": True, "policies": both},
+            {"name": "mdo-iter-normalized", "kind": "mdo", "mode": "iter", "max_iter": 6, "normalize": True, "policies": ["kept"]},
+            {"name": "mdo-iter-tolerance-stopped", "kind": "mdo", "mode": "iter", "max_iter": 100, "system": "curved",
+             "policies": both, "expect_cause": "tol"},
+            {"name": "mdo-call-tolerance-stopped-xtol", "kind": "mdo", "mode": "call", "max_iter": 100, "system": "curved",
+             "settings": {"xtol_rel": 1e-4, "xtol_abs": 1e-4}, "policies": both, "expect_cause": "tol"},
+        ]
+    for c in configs:
+        c.setdefault("policies", ["reset"] if c["kind"] == "doe" else ["kept"])  # a DOE restarts with the default
+    return configs
+
+
+def child_cfg(cfg, **kw):
+    c = {k: v for k, v in cfg.items() if k not in ("policies", "expect_cause", "n_early")}
+    c.update(kw)
+    return c
 
 
 def run(ck: Check):
     import random
 
     rng = random.Random(ck.seed)
-    # ---- 1. the design: every crash point of every bounded run, both modes, up to 2 crashes
-    ms = 5 if ck.thorough else 3
-    for ec, ei in ((True, False), (False, True), (True, True)):
-        ck.tlc("Backup", model_cfg(ec, ei, ms, 2), workers=8, timeout=1500, deadlock=False,
-               require_actions=("ExecStart", "ExecEnd", "Store", "Crash", "Restart"))
+    check_design(ck)
     # ---- 2. real scenarios
     R = Runner(ck)
-    configs = [
-        {"name": "mdo-call", "kind": "mdo", "mode": "call", "max_iter": 5},
-        {"name": "mdo-iter", "kind": "mdo", "mode": "iter", "max_iter": 8},
-        {"name": "doe-call", "kind": "doe", "mode": "call",
-         "samples": [[1.0, 1.0], [0.5, -1.0], [2.0, 0.25], [1.0, 1.0], [-1.5, 3.0]]},
-    ]
-    S5 = [[1.0, 1.0], [0.5, -1.0], [2.0, 0.25], [1.0, 1.0], [-1.5, 3.0]]
-    configs += [
-        # at each iteration only: the newest entry of the file holds only the first output
-        {"name": "doe-iter", "kind": "doe", "mode": "iter", "samples": S5},
-        # objective and constraint computed by separate discipline executions (IDF, no coupling);
-        # the constraint raises ValueError at one sample: the DOE skips it, its partial entry stays
-        {"name": "doe-call-idf-failing-sample", "kind": "doe", "mode": "call", "samples": S5,
-         "system": "uncoupled", "formulation": "IDF", "fail_g": [[0.5, -1.0]]},
-    ]
-    configs += [
-        # an observable computed by its own discipline: it is evaluated by a new-iteration listener, i.e.
-        # AFTER the store listeners exported the value just stored (IDF: one discipline per function)
-        {"name": "doe-call-idf-observable", "kind": "doe", "mode": "call", "samples": S5[:3],
-         "system": "uncoupled_obs", "formulation": "IDF"},
-        # a run stopped by GEMSEO's own ftol/xtol criteria (max_iter not binding), restarted with the
-        # DEFAULT counter reset: the criteria look at the loaded + new entries, so the history is the same
-        {"name": "mdo-call-converged-default-reset", "kind": "mdo", "mode": "call", "max_iter": 100,
-         "restart_default_reset": True, "late_crashes": True},
-    ]
-    if ck.thorough:
-        configs += [
-            {"name": "mdo-both", "kind": "mdo", "mode": "both", "max_iter": 8},
-            {"name": "doe-iter-idf-failing-sample", "kind": "doe", "mode": "iter", "samples": S5,
-             "system": "uncoupled", "formulation": "IDF", "fail_g": [[2.0, 0.25]]},
-            {"name": "mdo-call-normalized", "kind": "mdo", "mode": "call", "max_iter": 8, "normalize": True},
-            {"name": "mdo-iter-normalized", "kind": "mdo", "mode": "iter", "max_iter": 6, "normalize": True},
-        ]
+    configs = scenario_configs(ck)
     n_children = 0
-    for cfg in configs:
+    modes = lambda cfg: (cfg["mode"] in ("call", "both"), cfg["mode"] in ("iter", "both"))  # noqa: E731
+    # ---- 2a. the uninterrupted run of every configuration
+    with ThreadPoolExecutor(max_workers=WORKERS) as ex:
+        refs = list(ex.map(lambda cfg: R.child(child_cfg(cfg, crash_at=0, load=False)), configs))
+    n_children += len(configs)
+    state = {}
+    for cfg, (rc, events, ref, _, err) in zip(configs, refs):
         name = cfg["name"]
-        ec, ei = cfg["mode"] in ("call", "both"), cfg["mode"] in ("iter", "both")
-        sig0 = {"config": name}
-        rc, events, ref, _, err = R.child(dict(cfg, crash_at=0, load=False))
-        n_children += 1
         if rc != 0 or ref is None:
             raise MachineryError(f"reference run {name} failed: rc={rc} {err}")
-        K = ref["n_exec"]
         req_by_pid = {}
         for e in ref["db"]:
             req_by_pid[R.pid(e["pt"])] = sorted(OUT_IDS[o] for o in e["vals"])
-        ref_vals = {(R.pid(e["pt"]), n): v for e in ref["db"] for n, v in e["vals"].items()}
         for e in events:
             # an output the run needs at a point but whose computation raises (a DOE skips the sample)
             if e["ev"] == "exec_failed":
                 q = R.pid(e["p"])
                 req_by_pid[q] = sorted(set(req_by_pid.get(q, [])) | {OUT_IDS[o] for o in e["outs"]})
+        state[name] = {"cfg": cfg, "ref": ref, "events": events, "req_by_pid": req_by_pid, "K": ref["n_exec"],
+                       "ref_vals": {(R.pid(e["pt"]), n): v for e in ref["db"] for n, v in e["vals"].items()},
+                       "ref_hist": R.dbj([{"pt": e["pt"], "outs": sorted(e["vals"])} for e in ref["db"]]),
+                       "sig0": {"config": name}}
 
-        def req_list():
-            n = len(R.points)
-            return [req_by_pid.get(p, []) for p in range(1, n + 1)]
+    def req_list(st):
+        return [st["req_by_pid"].get(p, []) for p in range(1, len(R.points) + 1)]
 
-        t_ref = R.to_trace(f"{name}/ref", events, req_list())
-        r, verdict, crashfile = validate(ck, [t_ref], ec, ei, len(R.points))
-        reached, total = verdict.get(t_ref["id"], (0, -1))
-        if r.violated or reached != total:
-            nxt = t_ref["events"][reached] if 0 <= reached < len(t_ref["events"]) else None
-            ck.violation("TraceConformance" if not r.violated else r.violated,
-                         dict(sig0, run="uninterrupted", event=nxt and nxt["ev"]),
-                         {"matched_prefix": reached, "of": total, "next_event": nxt, "tlc_tail": r.out[-1500:]})
-            continue
-        ck.traces += 1
-        ck.sample({"config": name, "n_discipline_executions": K, "events": t_ref["events"][:12]})
-        ks = list(range(1, K + 1))
-        if not ck.thorough:
-            if cfg.get("late_crashes"):
-                ks = sorted(set([K, K - 1, K - 3, K - 5]) & set(ks))
-            else:
-                ks = sorted(set([1, K] + rng.sample(ks, min(4 if name == "mdo-call" else 2, len(ks)))))
-        # ---- 3. kill a child in the k-th execution; compare the file with the prediction
-        def crash_and_restart(k):
-            out = {"k": k}
-            rc, ev, res, path, err = R.child(dict(cfg, crash_at=k, load=False))
-            out["rc"] = rc
-            out["path"] = path
-            try:
-                out["file"] = load_file(path)
-            except Exception as ex:  # noqa: BLE001
-                out["unloadable"] = repr(ex)
-                return out
-            # ---- 4. restart with load=True on the crashed file
-            rc2, ev2, res2, path2, err2 = R.child(dict(cfg, crash_at=0, load=True), init_file=path if os.path.exists(path) else None)
-            out.update(rc2=rc2, ev2=ev2, res2=res2, err2=err2, path2=path2)
-            return out
-
-        with ThreadPoolExecutor(max_workers=8) as ex:
-            results = list(ex.map(crash_and_restart, ks))
-        restart_traces = []
-        meta = {}
-        for o in results:
-            k = o["k"]
-            n_children += 2
-            sig = dict(sig0, crash_at_class="first" if k == 1 else "later")
-            case = {"config": name, "crash_in_execution": k, "of": K}
-            if o["rc"] != 99:
-                raise MachineryError(f"child {name} k={k} did not die as planned: rc={o['rc']}")
-            if "unloadable" in o:
-                ck.violation("FileLoadable", sig, dict(case, error=o["unloadable"]))
-                continue
-            want = crashfile.get((t_ref["id"], k))
-            if want is None:
-                raise MachineryError(f"no CRASHFILE prediction for {name} k={k}")
-            got = o["file"] or []
-            got_abs = [(R.pid(p), frozenset(OUT_IDS.get(n, 99) for n in vals)) for p, vals in got]
-            if got_abs != want:
-                ck.violation("FileExact" if ec else "FileAtLastIteration", sig,
-                             dict(case, spec_file=[(p, sorted(s)) for p, s in want], real_file=[(p, sorted(s)) for p, s in got_abs]))
-                continue
-            bad = [(R.pid(p), n) for p, vals in got for n, v in vals.items() if ref_vals.get((R.pid(p), n)) != v]
-            if bad:
-                ck.violation("FileValues", sig, dict(case, differing=bad[:5]))
+    # ---- 2b. TLC validates them and predicts the file at every discipline execution (one TLC run per backup mode)
+    crashfile = {}
+    for mode in sorted({modes(c) for c in configs}):
+        group = [st for st in state.values() if modes(st["cfg"]) == mode]
+        for st in group:
+            st["t_ref"] = R.to_trace(f"{st['cfg']['name']}/ref", st["events"], req_list(st),
+                                     maxiter=st["cfg"].get("max_iter", 0))
+        r, verdict, cf, _ = validate(ck, [st["t_ref"] for st in group], mode[0], mode[1], len(R.points))
+        crashfile.update(cf)
+        for st in group:
+            t_ref = st["t_ref"]
+            reached, total = verdict.get(t_ref["id"], (0, -1))
+            if r.violated or reached != total:
+                nxt = t_ref["events"][reached] if 0 <= reached < len(t_ref["events"]) else None
+                ck.violation("TraceConformance" if not r.violated else r.violated,
+                             dict(st["sig0"], run="uninterrupted", event=nxt and nxt["ev"]),
+                             {"matched_prefix": reached, "of": total, "next_event": nxt, "tlc_tail": r.out[-1500:]})
+                st["skip"] = True
                 continue
             ck.traces += 1
-            if o["rc2"] != 0 or o["res2"] is None:
-                ck.violation("RestartCompletes", dict(sig, rc=o["rc2"]), dict(case, stderr=o["err2"]))
+            ck.sample({"config": st["cfg"]["name"], "n_discipline_executions": st["K"], "ended_by": st["ref"]["cause"],
+                       "events": t_ref["events"][:12]})
+    # ---- 3. kill a child in the k-th execution, restart it with load=True under each counter policy
+    jobs = []
+    for st in state.values():
+        if st.get("skip"):
+            continue
+        cfg, K, name = st["cfg"], st["K"], st["cfg"]["name"]
+        N = len(st["ref"]["db"])
+        ks = list(range(1, K + 1))
+        # the late crash points: the file the specification predicts there holds all but the last N_LAST - 1
+        # entries of the uninterrupted history, or more (Backup!LateFile)
+        st["late"] = {k for k in ks if len(crashfile.get((st["t_ref"]["id"], k), ())) + N_LAST > N}
+        if not ck.thorough:
+            early = [k for k in ks if k not in st["late"] and k != 1]
+            ks = sorted(st["late"] | {1, K} | set(rng.sample(early, min(cfg.get("n_early", 2), len(early)))))
+            if cfg["kind"] == "doe":  # a DOE has no stopping test that looks back: two of the late points
+                ks = sorted({1, K} | set(rng.sample(range(1, K + 1), min(2, K))))
+        jobs += [(st, k) for k in ks]
+
+    def crash_and_restart(job):
+        st, k = job
+        cfg = st["cfg"]
+        out = {"k": k, "restarts": {}}
+        rc, ev, res, path, err = R.child(child_cfg(cfg, crash_at=k, load=False))
+        out["rc"] = rc
+        out["path"] = path
+        try:
+            out["file"] = load_file(path)
+        except Exception as ex:  # noqa: BLE001
+            out["unloadable"] = repr(ex)
+            return out
+        # ---- 4. restart with load=True on the crashed file, once per counter policy
+        for pol in cfg["policies"]:
+            rc2, ev2, res2, path2, err2 = R.child(child_cfg(cfg, crash_at=0, load=True, policy=pol),
+                                                  init_file=path if os.path.exists(path) else None)
+            out["restarts"][pol] = dict(rc2=rc2, ev2=ev2, res2=res2, err2=err2, path2=path2)
+        return out
+
+    with ThreadPoolExecutor(max_workers=WORKERS) as ex:
+        results = list(ex.map(crash_and_restart, jobs))
+    for (st, k), o in zip(jobs, results):
+        cfg, name, K = st["cfg"], st["cfg"]["name"], st["K"]
+        ec, ei = modes(cfg)
+        n_children += 1 + len(o["restarts"])
+        sig = dict(st["sig0"], crash_at_class="first" if k == 1 else "later")
+        case = {"config": name, "crash_in_execution": k, "of": K}
+        if o["rc"] != 99:
+            raise MachineryError(f"child {name} k={k} did not die as planned: rc={o['rc']}")
+        if "unloadable" in o:
+            ck.violation("FileLoadable", sig, dict(case, error=o["unloadable"]))
+            continue
+        want = crashfile.get((st["t_ref"]["id"], k))
+        if want is None:
+            raise MachineryError(f"no CRASHFILE prediction for {name} k={k}")
+        got = o["file"] or []
+        got_abs = [(R.pid(p), frozenset(OUT_IDS.get(n, 99) for n in vals)) for p, vals in got]
+        if got_abs != want:
+            ck.violation("FileExact" if ec else "FileAtLastIteration", sig,
+                         dict(case, spec_file=[(p, sorted(s)) for p, s in want], real_file=[(p, sorted(s)) for p, s in got_abs]))
+            continue
+        bad = [(R.pid(p), n) for p, vals in got for n, v in vals.items() if st["ref_vals"].get((R.pid(p), n)) != v]
+        if bad:
+            ck.violation("FileValues", sig, dict(case, differing=bad[:5]))
+            continue
+        ck.traces += 1
+        for pol, rs in o["restarts"].items():
+            if rs["rc2"] != 0 or rs["res2"] is None:
+                ck.violation("RestartCompletes", dict(sig, rc=rs["rc2"], policy=pol), dict(case, stderr=rs["err2"]))
                 continue
-            t2 = R.to_trace(f"{name}/restart@{k}", o["ev2"], None)
-            restart_traces.append(t2)
-            meta[t2["id"]] = (k, o)
-        for t in restart_traces:
-            t["req"] = req_list()
-        if restart_traces:
-            r2, verdict2, crashfile2 = validate(ck, restart_traces, ec, ei, len(R.points))
-            for t in restart_traces:
-                k, o = meta[t["id"]]
-                sig = dict(sig0, run="restart")
-                case = {"config": name, "crash_in_execution": k, "loaded_entries": len(t["init"])}
+            t2 = R.to_trace(f"{name}/restart@{k}/{pol}", rs["ev2"], None, policy=pol, maxiter=cfg.get("max_iter", 0),
+                            exact=0 if cfg.get("normalize") else 1, ref=st["ref_hist"], refcause=st["ref"]["cause"])
+            st.setdefault("restart_traces", []).append(t2)
+            st.setdefault("meta", {})[t2["id"]] = (k, pol, o, rs)
+    matrix = {}
+    crashfile2 = {}
+    for mode in sorted({modes(c) for c in configs}):
+        group = [st for st in state.values() if modes(st["cfg"]) == mode and st.get("restart_traces")]
+        traces = []
+        for st in group:
+            for t in st["restart_traces"]:
+                t["req"] = req_list(st)
+                traces.append(t)
+        if not traces:
+            continue
+        r2, verdict2, cf2, done2 = validate(ck, traces, mode[0], mode[1], len(R.points))
+        crashfile2.update(cf2)
+        for st in group:
+            cfg, name, ref = st["cfg"], st["cfg"]["name"], st["ref"]
+            for t in st["restart_traces"]:
+                k, pol, o, rs = st["meta"][t["id"]]
+                sig = dict(st["sig0"], run="restart", policy=pol)
+                case = {"config": name, "crash_in_execution": k, "of": st["K"], "loaded_entries": len(t["init"]),
+                        "counter_policy": pol, "uninterrupted_run_ended_by": ref["cause"]}
                 reached, total = verdict2.get(t["id"], (0, -1))
                 if reached != total:
                     nxt = t["events"][reached] if 0 <= reached < len(t["events"]) else None
@@ -284,63 +441,116 @@ def run(ck: Check):
                     ck.violation(clause, dict(sig, event=nxt and nxt["ev"]),
                                  dict(case, matched_prefix=reached, of=total, next_event=nxt, loaded=t["init"]))
                     continue
-                res2 = o["res2"]
-                # loaded entries kept (values too), optimum no worse, same history when replay is exact
+                res2 = rs["res2"]
+                judged = done2.get(t["id"])
+                if judged is None:
+                    raise MachineryError(f"no DONE verdict for {t['id']}")
+                case.update(restarted_run_ended_by=judged["cause"], entries=judged["entries"])
+                # loaded entries kept (values too), same history when TLC says it is due, optimum no worse
                 loaded = o["file"] or []
                 got_db = [(e["pt"], e["vals"]) for e in res2["db"]]
+                kept = True
                 for (p, vals), (p2, vals2) in zip(loaded, got_db):
                     if R.pid(p) != R.pid(p2) or any(vals2.get(n) != v for n, v in vals.items()):
                         ck.violation("LoadedKept", sig, dict(case, loaded=(p, vals), final=(p2, vals2)))
+                        kept = False
                         break
-                else:
-                    if not cfg.get("normalize"):
-                        ref_db = [(R.pid(e["pt"]), e["vals"]) for e in ref["db"]]
-                        new_db = [(R.pid(e["pt"]), e["vals"]) for e in res2["db"]]
-                        if ref_db != new_db:
-                            ck.violation("SameHistory", sig, dict(case, reference_points=[p for p, _ in ref_db],
-                                                                  restarted_points=[p for p, _ in new_db]))
-                            continue
-                        if cfg["kind"] == "mdo" and (res2["f_opt"] != ref["f_opt"] or res2["x_opt"] != ref["x_opt"]):
-                            ck.violation("SameHistory", dict(sig, part="optimum"), dict(case, ref=ref["f_opt"], restarted=res2["f_opt"]))
-                            continue
-                    if cfg["kind"] == "mdo" and loaded:
-                        feas = [vals["f"][0] for p, vals in loaded if "f" in vals and "g" in vals and vals["g"][0] <= 1e-6]
-                        if feas and res2["is_feasible"] and res2["f_opt"] > min(feas) + 1e-12:
-                            ck.violation("OptimumNoWorse", sig, dict(case, best_loaded=min(feas), reported=res2["f_opt"]))
-                            continue
-                    ck.traces += 1
-            # ---- 5. a second crash during a restarted run: "file already containing earlier data"
-            if restart_traces:
-                t = restart_traces[len(restart_traces) // 2]
-                k1, o1 = meta[t["id"]]
-                n2 = o1["res2"]["n_exec"]
-                if n2 >= 1:
-                    k2 = max(1, n2 // 2)
-                    rc3, ev3, res3, path3, err3 = R.child(dict(cfg, crash_at=k2, load=True),
-                                                          init_file=o1["path"] if os.path.exists(o1["path"]) else None)
-                    n_children += 1
-                    sig = dict(sig0, run="second_crash")
-                    case = {"config": name, "first_crash": k1, "second_crash": k2}
-                    want = crashfile2.get((t["id"], k2))
-                    try:
-                        got = load_file(path3) or []
-                    except Exception as ex:  # noqa: BLE001
-                        ck.violation("FileLoadable", sig, dict(case, error=repr(ex)))
-                        got = None
-                    if got is not None and want is not None:
-                        got_abs = [(R.pid(p), frozenset(OUT_IDS.get(n, 99) for n in vals)) for p, vals in got]
-                        if got_abs != want:
-                            ck.violation("FileExact" if ec else "FileAtLastIteration", sig,
-                                         dict(case, spec_file=[(p, sorted(s)) for p, s in want],
-                                              real_file=[(p, sorted(s)) for p, s in got_abs]))
-                        else:
-                            ck.traces += 1
+                if not kept:
+                    continue
+                ref_db = [(R.pid(e["pt"]), e["vals"]) for e in ref["db"]]
+                new_db = [(R.pid(e["pt"]), e["vals"]) for e in res2["db"]]
+                hist = dict(case, reference_points=[p for p, _ in ref_db], restarted_points=[p for p, _ in new_db])
+                if judged["due"]:
+                    # TLC: same points, same outputs, same order; here: the values themselves
+                    if not judged["same"] or ref_db != new_db:
+                        ck.violation("SameHistory", dict(sig, ref_ended_by=ref["cause"]), hist)
+                        continue
+                    if cfg["kind"] == "mdo" and (res2["f_opt"] != ref["f_opt"] or res2["x_opt"] != ref["x_opt"]):
+                        ck.violation("SameHistory", dict(sig, ref_ended_by=ref["cause"], part="optimum"),
+                                     dict(case, ref=ref["f_opt"], restarted=res2["f_opt"]))
+                        continue
+                elif t["exact"]:
+                    # budget-terminated run restarted with a fresh budget: the uninterrupted history is kept
+                    # and continued
+                    if not judged["prefix"] or any(v2.get(n) != v for (_, vs), (_, v2) in zip(ref_db, new_db)
+                                                   for n, v in vs.items()):
+                        ck.violation("RefIsPrefix", dict(sig, ref_ended_by=ref["cause"]), hist)
+                        continue
+                if cfg["kind"] == "mdo" and loaded:
+                    feas = [vals["f"][0] for p, vals in loaded if "f" in vals and "g" in vals and vals["g"][0] <= 1e-6]
+                    if feas and res2["is_feasible"] and res2["f_opt"] > min(feas) + 1e-12:
+                        ck.violation("OptimumNoWorse", sig, dict(case, best_loaded=min(feas), reported=res2["f_opt"]))
+                        continue
+                ck.traces += 1
+                if not judged["count"]:
+                    ck.extra["counter_differs_from_model"] = ck.extra.get("counter_differs_from_model", 0) + 1
+                if t["exact"] and cfg["kind"] == "mdo":
+                    key = f"{ref['cause']}/{pol}/{'late' if k in st['late'] else 'early'}"
+                    matrix[key] = matrix.get(key, 0) + 1
+    # ---- 5. a second crash during a restarted run: "file already containing earlier data"
+    second = []
+    for st in state.values():
+        ts = st.get("restart_traces") or []
+        if ts:
+            t = ts[len(ts) // 2]
+            k1, pol, o1, rs = st["meta"][t["id"]]
+            n2 = rs["res2"]["n_exec"]
+            if n2 >= 1:
+                second.append((st, t, k1, pol, o1, max(1, n2 // 2)))
+
+    def second_crash(job):
+        st, t, k1, pol, o1, k2 = job
+        return R.child(child_cfg(st["cfg"], crash_at=k2, load=True, policy=pol),
+                       init_file=o1["path"] if os.path.exists(o1["path"]) else None)
+
+    with ThreadPoolExecutor(max_workers=WORKERS) as ex:
+        results = list(ex.map(second_crash, second))
+    for (st, t, k1, pol, o1, k2), (rc3, ev3, res3, path3, err3) in zip(second, results):
+        n_children += 1
+        ec, ei = modes(st["cfg"])
+        sig = dict(st["sig0"], run="second_crash")
+        case = {"config": st["cfg"]["name"], "first_crash": k1, "second_crash": k2, "counter_policy": pol}
+        want = crashfile2.get((t["id"], k2))
+        try:
+            got = load_file(path3) or []
+        except Exception as ex:  # noqa: BLE001
+            ck.violation("FileLoadable", sig, dict(case, error=repr(ex)))
+            got = None
+        if got is not None and want is not None:
+            got_abs = [(R.pid(p), frozenset(OUT_IDS.get(n, 99) for n in vals)) for p, vals in got]
+            if got_abs != want:
+                ck.violation("FileExact" if ec else "FileAtLastIteration", sig,
+                             dict(case, spec_file=[(p, sorted(s)) for p, s in want],
+                                  real_file=[(p, sorted(s)) for p, s in got_abs]))
+            else:
+                ck.traces += 1
     ck.extra["child_processes"] = n_children
-    ck.extra["configs"] = [c["name"] for c in configs]
+    ck.extra["configs"] = {c["name"]: {"ended_by": state[c["name"]]["ref"]["cause"], "discipline_executions": state[c["name"]]["K"],
+                                       "iterations": len(state[c["name"]]["ref"]["db"]), "policies": c["policies"]}
+                           for c in configs}
+    ck.extra["restarts_judged_by_cause_policy_crashpoint"] = matrix
+    # ---- vacuity (only meaningful when nothing was reported): the configurations end for the cause they are
+    # there for, and every cause x policy was restarted from late crash points
+    if not ck.violations:
+        for c in configs:
+            got = state[c["name"]]["ref"]["cause"]
+            if c.get("expect_cause") and got != c["expect_cause"]:
+                raise MachineryError(f"vacuity: the uninterrupted run of {c['name']} was ended by '{got}' "
+                                     f"({state[c['name']]['ref']['message']!r}), not by '{c['expect_cause']}'")
+        for cause in ("budget", "tol", "algo"):
+            for pol in ("reset", "kept"):
+                if not matrix.get(f"{cause}/{pol}/late"):
+                    raise MachineryError(f"vacuity: no restart judged for {cause}/{pol}/late: {matrix}")
+        late = state["mdo-call-tolerance-stopped"]["late"]
+        n_tol_late = sum(1 for (st, k) in jobs if st["cfg"]["name"] == "mdo-call-tolerance-stopped" and k in late)
+        if n_tol_late != len(late):
+            raise MachineryError("vacuity: not every late crash point of the tolerance-stopped run was replayed")
     ck.assumptions += [
         "a crash is process death (os._exit) inside Discipline._run; HDF5 writes completed before the death are durable",
         "existing backup file + neither load nor erase is not exercised (behaviour not documented)",
         "eachIter: exactness is demanded at the option's granularity (file = database when the newest iteration was opened), see DESIGN.md C12",
+        "SameHistory is demanded for every (cause of the uninterrupted run) x (counter policy of the restart) except "
+        "budget x reset (documented: a fresh budget), where the uninterrupted history must be a prefix (Backup!SameHistoryDue)",
     ]
 
 
